@@ -67,6 +67,8 @@ type Rec struct {
 	Kind string        `json:"kind"`
 	Res  []interface{} `json:"res"`
 	C    []Pair        `json:"c"`
+	OC   []Pair        `json:"oc"` // content of the other handle (Trie.Copy) after the call
+	HO   bool          `json:"ho"` // there is another handle
 }
 
 func ks(k []int) string { return fmt.Sprint(k) }
@@ -190,6 +192,8 @@ type inst struct {
 	disk      ethdb.Database
 	tdb       *trie.Database
 	t         TrieI
+	o         TrieI // the other handle (made by Copy); nil before the first copy
+	odb       *trie.Database // the trie.Database the other handle writes to (a handle stays with the database it was opened on)
 	croot     common.Hash
 	committed bool
 	uni       [][]int
@@ -714,9 +718,66 @@ func concretePrefixFree(kv []kvb) bool {
 
 // ---------------------------------------------------------------- one call
 
+// copyOf = Trie.Copy / SecureTrie.Copy: a second handle sharing every in-memory node with the first
+func copyOf(t TrieI) TrieI {
+	switch x := t.(type) {
+	case *trie.Trie:
+		cp := *x // what SecureTrie.Copy does with the Trie it embeds
+		return &cp
+	case *trie.SecureTrie:
+		return x.Copy()
+	}
+	panic("copyOf: unknown trie type")
+}
+
+// checkOther: what the OTHER handle holds is what its holder put there (oc), whatever was done through the first one.
+// Reads always; the root (which caches hashes in the shared nodes) only when asked - so that both a hashed and a
+// never-hashed second handle are exercised.
+func (in *inst) checkOther(oc []Pair, withRoot bool) (v *Viol) {
+	if in.o == nil {
+		return nil
+	}
+	defer func() {
+		if x := recover(); x != nil {
+			v = viol("panic", "reading the other handle: %v", x)
+		}
+	}()
+	in.t, in.o, in.tdb, in.odb = in.o, in.t, in.odb, in.tdb
+	defer func() { in.t, in.o, in.tdb, in.odb = in.o, in.t, in.odb, in.tdb }()
+	if e := in.getAll(contentMap(oc)); e != nil {
+		e.Cat = "other-handle-" + e.Cat
+		return e
+	}
+	if withRoot {
+		if e := in.checkRoot(in.t.Hash(), oc); e != nil {
+			e.Cat = "other-handle-" + e.Cat
+			return e
+		}
+		for _, p := range oc {
+			pr, e := in.prove(p.K)
+			if e != nil {
+				e.Cat = "other-handle-" + e.Cat
+				return e
+			}
+			if g := in.verify(pr.root, p.K, pr.nodes); g != p.V {
+				return &Viol{Cat: "other-handle-proof", Detail: fmt.Sprintf("proof for %v produced by the other handle", p.K), Exp: p.V, Got: g}
+			}
+		}
+	}
+	return nil
+}
+
 // exec performs one call record on the instance.  c is the content the caller (spec or model)
 // expects AFTER the call.  Returns the observed abstract result and the first failed check.
 func (in *inst) exec(r *Rec, c []Pair) (res []interface{}, v *Viol) {
+	res, v = in.exec1(r, c)
+	if v == nil && in.o != nil {
+		v = in.checkOther(r.OC, in.fl.Eager || r.Op == "hash" || r.Op == "swap")
+	}
+	return
+}
+
+func (in *inst) exec1(r *Rec, c []Pair) (res []interface{}, v *Viol) {
 	defer func() {
 		if x := recover(); x != nil {
 			res, v = []interface{}{"panic"}, viol("panic", "%s(%v): %v", r.Op, r.K, x)
@@ -792,6 +853,15 @@ func (in *inst) exec(r *Rec, c []Pair) (res []interface{}, v *Viol) {
 	case "stack":
 		eq, e := in.stackAgrees(c)
 		return []interface{}{"stack", eq}, e
+	case "copy":
+		in.o, in.odb = copyOf(in.t), in.tdb
+		return ok, after()
+	case "swap":
+		if in.o == nil {
+			return ok, viol("driver", "swap without a second handle")
+		}
+		in.t, in.o, in.tdb, in.odb = in.o, in.t, in.odb, in.tdb
+		return ok, after()
 	}
 	return []interface{}{"unknown-op"}, viol("driver", "unknown op %q", r.Op)
 }
@@ -820,7 +890,7 @@ func kindsOf(x interface{}) string {
 func conform(fl flavor, r *Rec, got []interface{}, cm map[string]int) bool {
 	exp := r.Res
 	switch r.Op {
-	case "update", "delete", "commit", "reload":
+	case "update", "delete", "commit", "reload", "copy", "swap":
 		return len(got) == 1 && got[0] == "ok"
 	case "get":
 		return num(got[1]) == num(exp[1])
@@ -1050,6 +1120,12 @@ func cmdReplay(args []string) {
 							bad, step = v, len(beh)
 						}
 					}
+					if bad == nil && in.o != nil && len(beh) > 0 {
+						// ... and the other handle is still a complete, canonical trie of its own content
+						if v := in.checkOther(beh[len(beh)-1].OC, true); v != nil {
+							bad, step = v, len(beh)
+						}
+					}
 					mu.Lock()
 					st := stats[fl.Name]
 					st.Behaviours++
@@ -1115,17 +1191,20 @@ func cmdRandom(args []string) {
 		}
 		in := newInst(fl, uni, opt, int64(1000+t))
 		model := map[string]Pair{}
+		omodel := map[string]Pair{} // what the other handle holds
+		hasOther := false
 		cmodel := map[string]Pair{}
 		committed := false
 		sinceHash := 0
-		content := func() []Pair {
-			c := make([]Pair, 0, len(model))
-			for _, p := range model {
+		contentOf := func(m map[string]Pair) []Pair {
+			c := make([]Pair, 0, len(m))
+			for _, p := range m {
 				c = append(c, p)
 			}
 			sort.Slice(c, func(i, j int) bool { return lexLess(c[i].K, c[j].K) })
 			return c
 		}
+		content := func() []Pair { return contentOf(model) }
 		pick := func(existing bool) []int {
 			if existing && len(model) > 0 {
 				c := content()
@@ -1134,8 +1213,11 @@ func cmdRandom(args []string) {
 			return keys[r.Intn(len(keys))]
 		}
 		emit := func(rec *Rec, ok bool, fail string) {
+			if rec.OC == nil {
+				rec.OC = []Pair{}
+			}
 			ev := map[string]interface{}{"op": rec.Op, "k": nz(rec.K), "v": rec.V, "k2": nz(rec.K2), "i": rec.I, "kind": rec.Kind,
-				"res": rec.Res, "ok": ok, "fail": fail, "flavor": fl.Name, "trace": t, "exact": fl.exact(), "shape": fl.shape()}
+				"res": rec.Res, "ok": ok, "fail": fail, "oc": rec.OC, "ho": rec.HO, "flavor": fl.Name, "trace": t, "exact": fl.exact(), "shape": fl.shape()}
 			enc.Encode(ev)
 		}
 		emit(&Rec{Op: "tracereset", Res: []interface{}{"init"}}, true, "")
@@ -1150,7 +1232,12 @@ func cmdRandom(args []string) {
 					x = 70
 				}
 			}
+			y := r.Intn(100)
 			switch {
+			case profile != "burst" && y < 3:
+				rec.Op = "copy"
+			case profile != "burst" && y < 8 && hasOther:
+				rec.Op = "swap"
 			case x < 40:
 				rec.Op, rec.K, rec.V = "update", pick(r.Intn(3) == 0), 1+r.Intn(5)
 			case x < 46:
@@ -1210,7 +1297,16 @@ func cmdRandom(args []string) {
 				sinceHash = 0
 			case "hash", "prove", "verify", "corrupt", "stack":
 				sinceHash = 0
+			case "copy":
+				omodel = map[string]Pair{}
+				for k, p := range model {
+					omodel[k] = p
+				}
+				hasOther = true
+			case "swap":
+				model, omodel = omodel, model
 			}
+			rec.OC, rec.HO = contentOf(omodel), hasOther
 			if rec.Op == "corrupt" {
 				// the spec defines CorruptProof for an index on the abstract path; driver and trace spec both
 				// take the logged index modulo the length of their path (non-empty trie: path non-empty)
